@@ -391,8 +391,10 @@ Qed.
 Print Assumptions C07_options_exn.
 
 (* C07_options at full strength (forall o, Ok or SQLParseError) is FALSE of the model and of the code *)
-Theorem C07_options_refuted : exists o, validate_options o = OErr OverflowError.
-Proof. exists [(o_indent_width, PFloatInf false)]. vm_compute. reflexivity. Qed.
+(* (an infinite float used to escape as OverflowError -- finding C07-OPT-1, repaired in the library by the commit
+   "fix: reject infinite option values with SQLParseError": it is rejected with SQLParseError now) *)
+Theorem C07_options_inf_rejected : validate_options [(o_indent_width, PFloatInf false)] = SQLErr.
+Proof. vm_compute. reflexivity. Qed.
 
 Theorem C07_options_refuted_repr : exists o, validate_options o = OErr (Exn ValueError).
 Proof. exists [(o_keyword_case, PInt (10 ^ 4300))]. vm_compute. reflexivity. Qed.
